@@ -38,7 +38,10 @@ pub fn install_panic_hook() {
             .location()
             .map(|l| format!("{}:{}", l.file(), l.line()))
             .unwrap_or_default();
-        if loc.starts_with("src/") || loc.contains("/verif/sim/src") {
+        // (the simulated std::env::set_var panics on purpose, like the real one)
+        if (loc.starts_with("src/") || loc.contains("/verif/sim/src"))
+            && !msg.contains("simulated std::env::set_var")
+        {
             eprintln!("harness panic at {}: {}", loc, msg);
         }
         LAST_PANIC.with(|p| *p.borrow_mut() = Some((msg, loc)));
